@@ -44,7 +44,7 @@ P.update({
 # the thorough tier is registered only where it was run to completion on the unchanged tree (exit 0) in this sandbox;
 # for the others `./check <ID> --tier thorough` exists (bigger catalogue: kite, pentagon, banana4/5, mercedes, all D)
 # but did not finish within 50 minutes or was not run again after the last change, so it is not registered
-THOROUGH_VALIDATED = {"C12", "C13", "C15", "C16", "C17", "C19", "C20"}
+THOROUGH_VALIDATED = {"C07", "C12", "C13", "C15", "C16", "C17", "C19", "C20"}
 NA_PENDING = "check not built yet at this commit (planned, see DESIGN.md §6); not claimed"
 NA = {
  "C01": "integral identity over the whole hypercube (unbiasedness): not an assertion over one execution or a bounded set of executions; no bounded solver query expresses it (DESIGN §6 C01). The pointwise facts it needs are claimed under C04, C06-C11, C13.",
